@@ -258,11 +258,12 @@ Definition deactivated (br_cols : list string) (c : mcmp) : bool :=
 Definition active_cmps (br_cols : list string) (m : model) : list mcmp :=
   filter (fun c => negb (deactivated br_cols c)) (md_cmps m).
 
-(* exact_comparison_levels.sort(key=lambda x: -len(colnames)): stable, descending length *)
+(* exact_comparison_levels.sort(key=lambda x: -len(colnames)): stable (ties keep their original
+   order: an element is inserted BEFORE later elements of equal length), descending length *)
 Fixpoint sinsert {X : Type} (x : list string * X) (l : list (list string * X)) : list (list string * X) :=
   match l with
   | [] => [x]
-  | y :: t => if Nat.ltb (List.length (fst y)) (List.length (fst x)) then x :: l else y :: sinsert x t
+  | y :: t => if Nat.leb (List.length (fst y)) (List.length (fst x)) then x :: l else y :: sinsert x t
   end.
 Definition ssort {X : Type} (l : list (list string * X)) : list (list string * X) :=
   fold_right sinsert [] l.
